@@ -187,10 +187,31 @@ def audit(prop_module, obligations):
     return res, out
 
 
+_DRIVER_BUILT = set()
+
+
+def ensure_driver_built(driver):
+    """the driver is interpreted (`lean --run`) but its imports must be compiled: build them (no-op when up to date)"""
+    if driver in _DRIVER_BUILT:
+        return
+    mods = []
+    for line in open(os.path.join(LEAN, driver)):
+        m = re.match(r'\s*import\s+(Py4hwV\.[\w\.]+)', line)
+        if m:
+            mods.append(m.group(1))
+    if mods:
+        ok, out = lean_build(mods)
+        if not ok:
+            errs = [l for l in out.split('\n') if 'error' in l][:6]
+            raise ToolFailure(f'model modules of {driver} do not build: ' + ' // '.join(errs))
+    _DRIVER_BUILT.add(driver)
+
+
 def run_driver(driver, lines, timeout=3000):
     """driver: path relative to lean/ (e.g. 'Drv/Leaf.lean'); lines: list[str] -> list[str]"""
     if not lines:
         return []
+    ensure_driver_built(driver)
     data = '\n'.join(lines) + '\n'
     p = subprocess.run(['lake', 'env', 'lean', '--run', driver], cwd=LEAN, input=data, capture_output=True,
                        text=True, timeout=timeout)
